@@ -225,6 +225,12 @@ fn named(_: &mut ZooA, s: String) {
     rec(format!("named({s})"));
 }
 
+/// Multi-byte characters before and between the captures.
+#[when(regex = r"^café (\d+) crêpes for (\w+)é$")]
+fn cafe(_: &mut ZooA, n: u32, who: String) {
+    rec(format!("cafe({n},{who})"));
+}
+
 // ---- ZooB ----------------------------------------------------------------
 
 #[given("a literal step")]
@@ -457,6 +463,18 @@ pub fn entries() -> Vec<Entry> {
             let w = t.strip_suffix(" named group")?;
             word_chars(w).then(|| Expect::Call(format!("named({w})")))
         }),
+        e(0, When, "cafe", |t| {
+            let v = toks(t);
+            (v.len() == 5 && v[0] == "café" && digits(v[1]) && v[2] == "crêpes" && v[3] == "for").then_some(())?;
+            let who = v[4].strip_suffix('é')?;
+            (!who.is_empty() && word_chars(who)).then(|| {
+                if fits::<u32>(v[1]) {
+                    Expect::Call(format!("cafe({},{who})", v[1].parse::<u32>().unwrap()))
+                } else {
+                    Expect::Fail(None)
+                }
+            })
+        }),
         e(1, Given, "b_lit", |t| (t == "a literal step").then(|| Expect::Call("b_lit(7)".into()))),
         e(1, When, "b_re", |t| {
             let n = t.strip_prefix("b ")?;
@@ -509,7 +527,9 @@ pub fn texts(max_tokens: usize) -> Vec<String> {
         "async 7", "async 256", "async x", "result ok", "result err", "result maybe", "alias ok", "alias err", "alias maybe", "io ok", "io err",
         "async result ok", "async result no", "async result two words",
         "parse 12", "parse 300", "parse x", "parse -1", "multi lit", "multi re", "multi expr", "multi", "multi lit ",
-        "abc named group", "two words named group", "b 12", "b 70000", "b x",
+        "abc named group", "two words named group", "éa named group", "zoë named group",
+        "café 12 crêpes for Chloé", "café 7 crêpes for é", "café 7 crêpes for Zoëé", "cafe 12 crêpes for Chloé",
+        "café 99999999999 crêpes for Chloé", "b 12", "b 70000", "b x",
     ] {
         for t in [
             base.to_owned(),
